@@ -76,6 +76,7 @@ type pathEnd struct {
 }
 
 type goPanic struct{ v Value } // a Go-level panic travelling up the host stack
+type crashKill struct{}        // the simulated process is killed: unwinds the host stack up to vpRunKillable without running Go defers
 
 type NondetVar struct {
 	Label string
@@ -618,7 +619,7 @@ func (in *Interp) runFrame(fr *frame) {
 		}
 		r := recover()
 		switch r.(type) {
-		case pathEnd, engineError:
+		case pathEnd, engineError, crashKill:
 			panic(r)
 		case goPanic:
 		default:
